@@ -72,6 +72,7 @@ type c19Case struct {
 	Pre        []c19Pre  `json:"pre,omitempty"`
 	Unrel      []string  `json:"unrel,omitempty"`
 	StepWait   bool      `json:"sw,omitempty"` // wait for quiescence after every single record
+	Via        bool      `json:"via,omitempty"` // build the writer through logx.createOutput and the package options
 	Steps      []c19Step `json:"steps"`
 }
 
@@ -144,6 +145,7 @@ type c19File struct {
 	kind int
 	t    time.Time // backup: the instant encoded in the name
 	gz   bool
+	fi   os.FileInfo
 	raw  []byte
 	data []byte // decoded
 	recs []c19Parsed
@@ -156,6 +158,7 @@ type c19Env struct {
 	c           c19Case
 	dir         string
 	prefix, ext string
+	cache       map[string]*c19File // backups and other files are immutable once the writer is quiescent
 }
 
 func (e *c19Env) classify(name string) (kind int, tm time.Time, gz bool) {
@@ -209,11 +212,20 @@ func (e *c19Env) snapshot() (c19Snap, string) {
 		if en.IsDir() {
 			continue
 		}
+		fi, err := en.Info()
+		if err != nil {
+			return nil, "snapshot: " + err.Error()
+		}
+		if cf := e.cache[en.Name()]; cf != nil && cf.kind != c19Current && os.SameFile(cf.fi, fi) &&
+			cf.fi.Size() == fi.Size() && cf.fi.ModTime().Equal(fi.ModTime()) {
+			s[cf.name] = cf
+			continue
+		}
 		raw, err := os.ReadFile(filepath.Join(e.dir, en.Name()))
 		if err != nil {
 			return nil, "snapshot: " + err.Error()
 		}
-		f := &c19File{name: en.Name(), raw: raw}
+		f := &c19File{name: en.Name(), raw: raw, fi: fi}
 		f.kind, f.t, f.gz = e.classify(en.Name())
 		if f.kind != c19Other {
 			f.data = raw
@@ -233,6 +245,7 @@ func (e *c19Env) snapshot() (c19Snap, string) {
 		}
 		s[f.name] = f
 	}
+	e.cache = s
 	return s, ""
 }
 
@@ -360,8 +373,32 @@ func c19Run(c c19Case, root string, r *c19Result) {
 			r.classes["size-1MB-constructor"] = true
 		}
 	}
-	l, err := NewLogger(filename, rule, c.Compress)
-	if err != nil {
+	var l *RotateLogger
+	var err error
+	if c.Via {
+		// the path taken by logx.SetUp in file mode: options -> createOutput
+		saved := options
+		options.gzipEnabled, options.keepDays, options.maxBackups, options.maxSize = c.Gzip, c.Days, c.MaxBackups, 1
+		options.rotationRule = ""
+		if c.Rule == "size" {
+			options.rotationRule = sizeRotationRule
+		}
+		out, e2 := createOutput(filename)
+		options = saved
+		if e2 != nil {
+			failf("createOutput: %v", e2)
+			return
+		}
+		var ok bool
+		if l, ok = out.(*RotateLogger); !ok {
+			failf("createOutput returned %T", out)
+			return
+		}
+		if sr, ok := l.rule.(*SizeLimitRotateRule); ok && c.MaxSize > 0 {
+			sr.maxSize = maxSize
+		}
+		r.classes["via-createOutput"] = true
+	} else if l, err = NewLogger(filename, rule, c.Compress); err != nil {
 		failf("NewLogger: %v", err)
 		return
 	}
@@ -379,7 +416,17 @@ func c19Run(c c19Case, root string, r *c19Result) {
 		failf("%s", msg)
 		return
 	}
-	periodStart := start      // when the current file's period began (names the next backup)
+	periodStart := start // when the current file's period began (names the next backup)
+	// held: a descriptor on the current file, kept open between two snapshots. A
+	// rotation is recognised by the path naming another file than the descriptor
+	// (the inode cannot be reused while it is open), and the content of a backup
+	// that was removed right after its creation can still be read through it.
+	var held *os.File
+	defer func() {
+		if held != nil {
+			held.Close()
+		}
+	}()
 	loc := map[int]string{}   // record id -> file it was seen in at the previous snapshot
 	gone := map[int]bool{}    // record id -> its backup was removed by a justified clean-up
 	tolerated := map[int]bool{}
@@ -412,6 +459,23 @@ func c19Run(c c19Case, root string, r *c19Result) {
 		}
 		// rotation observed in this step?
 		rotated := false
+		oldRecs := map[int]bool{} // records in the file that was the current one before this step's rotation
+		if held != nil {
+			hfi, err1 := held.Stat()
+			cfi, err2 := os.Stat(filename)
+			if err1 == nil && err2 == nil && !os.SameFile(hfi, cfi) {
+				rotated = true
+				if fi, err := held.Stat(); err == nil {
+					b := make([]byte, fi.Size())
+					if n, _ := held.ReadAt(b, 0); n == len(b) {
+						recs, _ := c19Parse(b)
+						for _, p := range recs {
+							oldRecs[p.id] = true
+						}
+					}
+				}
+			}
+		}
 		for _, f := range cur {
 			if f.kind == c19Backup && prev[f.name] == nil {
 				rotated = true
@@ -530,12 +594,6 @@ func c19Run(c c19Case, root string, r *c19Result) {
 				last = p.id
 			}
 		}
-		minCur := nextID
-		for _, p := range cf.recs {
-			if p.id < c19OldBase && p.id < minCur {
-				minCur = p.id
-			}
-		}
 		for id := 1; id < nextID; id++ {
 			if where[id] != nil {
 				if gone[id] || tolerated[id] {
@@ -554,9 +612,10 @@ func c19Run(c c19Case, root string, r *c19Result) {
 				// its backup was removed in this step; (c) has judged the removal
 				gone[id] = true
 				continue
-			case (seenBefore && was == c.Base || id >= firstNew) && rotated && id < minCur &&
+			case rotated && oldRecs[id] &&
 				cur[e.backupName(expT, c.Compress)] == nil && c.Days > 0 && e.older(expT, now, c.Days):
-				// rotated into a backup whose name is already older than the retention days
+				// it was in the file rotated in this step, whose backup name is already
+				// older than the retention days, so the clean-up removed it at once
 				gone[id] = true
 				r.classes["backup-outdated-at-birth"] = true
 				continue
@@ -619,6 +678,13 @@ func c19Run(c c19Case, root string, r *c19Result) {
 		if rotated {
 			r.rotations++
 			periodStart = now
+			if held != nil {
+				held.Close()
+				held = nil
+			}
+		}
+		if held == nil {
+			held, _ = os.Open(filename)
 		}
 		prev = cur
 		return true
@@ -712,14 +778,17 @@ func c19Gen(rt *rapid.T) c19Case {
 	c.Base = rapid.SampledFrom([]string{"access.log", "svc", "a.b.log"}).Draw(rt, "base")
 	c.T0 = rapid.SampledFrom([]int64{0, 0, 1, 3600, 43200, 86398, 86399}).Draw(rt, "t0")
 	c.StepWait = rapid.Bool().Draw(rt, "stepWait")
+	if c.Delim == backupFileDelimiter && c.Compress == c.Gzip {
+		c.Via = rapid.Bool().Draw(rt, "via")
+	}
 	big := false
 	if c.Rule == "size" {
 		c.MaxBackups = rapid.IntRange(0, 4).Draw(rt, "maxBackups")
-		bigOdds := 150
+		bigOdds := 8 // per mille
 		if kit.Thorough() {
-			bigOdds = 25
+			bigOdds = 30
 		}
-		if rapid.IntRange(0, bigOdds).Draw(rt, "big") == 0 {
+		if d := rapid.IntRange(0, 999).Draw(rt, "big"); d >= 500 && d < 500+bigOdds {
 			big = true
 		} else {
 			c.MaxSize = rapid.IntRange(64, 512).Draw(rt, "maxSize")
@@ -755,6 +824,10 @@ func c19Gen(rt *rapid.T) c19Case {
 	if big && nsteps > 10 {
 		nsteps = 10
 	}
+	floodAt := -1
+	if d := rapid.IntRange(0, 99).Draw(rt, "flood"); c.Rule == "daily" && d >= 40 && d < 52 {
+		floodAt = rapid.IntRange(0, nsteps-1).Draw(rt, "floodAt")
+	}
 	// model of the bytes in the current file, used only to aim record sizes at the limit
 	cur := 0
 	for _, n := range c.PreCur {
@@ -778,7 +851,7 @@ func c19Gen(rt *rapid.T) c19Case {
 				st.Jump, st.Ms = "gap", rapid.Int64Range(0, 30*3600_000).Draw(rt, "ms")
 			}
 			nrec := rapid.IntRange(0, 4).Draw(rt, "nrec")
-			if rapid.IntRange(0, 40).Draw(rt, "flood") == 0 {
+			if i == floodAt {
 				nrec = rapid.IntRange(bufferSize+1, bufferSize+40).Draw(rt, "nflood")
 			}
 			for k := 0; k < nrec; k++ {
@@ -786,8 +859,9 @@ func c19Gen(rt *rapid.T) c19Case {
 			}
 		} else {
 			// size-triggered rotations at least a second apart (statement): at least 1 s
-			// before every burst, and a burst never carries more than max bytes, so that
-			// a size rule rotates at most once within it.
+			// before every burst, and a burst is either one record or carries fewer than
+			// max bytes, so that a size rule (rotating before or after the record that
+			// crosses the limit, at > or at >=) rotates at most once within it.
 			switch rapid.IntRange(0, 9).Draw(rt, "jump") {
 			case 0, 1, 2, 3, 4:
 				st.Jump, st.Ms = "gap", rapid.SampledFrom([]int64{1000, 1000, 1001, 1500, 2000, 3000}).Draw(rt, "ms")
@@ -818,7 +892,7 @@ func c19Gen(rt *rapid.T) c19Case {
 				if n < c19MinLen {
 					n = c19MinLen
 				}
-				if total+n > max && k > 0 {
+				if total+n > max-1 && k > 0 {
 					break
 				}
 				total += n
@@ -827,7 +901,7 @@ func c19Gen(rt *rapid.T) c19Case {
 					cur = 0
 				}
 				cur += n
-				if total >= max {
+				if total >= max-1 {
 					break
 				}
 			}
